@@ -446,10 +446,10 @@ func runCase(w *vh.W, c *jcase) {
 	// schedule perturbation at the hook points inside snapshot / replace / delete
 	var pert uint64
 	verifhook.Set(func(string) {
-		if atomic.AddUint64(&pert, 1)%2 == 0 {
+		if v := atomic.AddUint64(&pert, 1); v%2 == 0 {
 			runtime.Gosched()
 		} else {
-			time.Sleep(time.Duration(pert%5) * 50 * time.Microsecond)
+			time.Sleep(time.Duration(v%5) * 50 * time.Microsecond)
 		}
 	})
 	// Warm-up: unless the case is marked cold, one acknowledged write completes before the
@@ -547,10 +547,11 @@ func runEC(w *vh.W, e *tsm1.Engine, c *jcase) (failure string) {
 	c.Hist = nil
 	do := func(g int, op jop) {
 		op.G = g
-		if p := vh.Guard(func() { exec(e, &op, &closed) }); p != "" && failure == "" {
+		p := vh.Guard(func() { exec(e, &op, &closed) })
+		mu.Lock()
+		if p != "" && failure == "" {
 			failure = fmt.Sprintf("%s: panic: %s", op.Op, p)
 		}
-		mu.Lock()
 		c.Hist = append(c.Hist, op)
 		mu.Unlock()
 	}
